@@ -141,6 +141,9 @@ pub fn gen_c14(run: &mut Run, seed: u64, thorough: bool) {
                     };
                     let (auth, aucl) = pick_auth(&spender, &mut rng, true);
                     let aucl = if aucl == "right-root-only" && false { "right" } else { aucl };
+                    // now and then the SERVICE ITSELF is the spender, under the blanket authorisation (the only way a live contract
+                    // can authorise in the test host): the transfer is from itself to itself, the event still states the amount
+                    let (spender, auth, aucl) = if rng.chance(1, 12) { (gs.clone(), "*".to_string(), "service-as-spender-everyone") } else { (spender.clone(), auth, aucl) };
                     if kind < 2 {
                         let payload = rng.bytes(rng.0 as usize % 40);
                         run.op(
